@@ -9,6 +9,7 @@ import (
 	"encoding/hex"
 	"encoding/json"
 	"fmt"
+	"math/rand/v2"
 	"os"
 	"os/exec"
 	"path/filepath"
@@ -28,8 +29,12 @@ type vfStoreDoc struct {
 }
 
 type vfStoreOp struct {
-	Op  string      `json:"op"` // add | flush | (C08: remove | rotate | evict | bgflush | compact | search)
+	Op  string      `json:"op"` // add | flush | bulk | (C08: remove | rotate | evict | bgflush | compact | search)
 	Doc *vfStoreDoc `json:"doc,omitempty"`
+	// bulk (C09): Count documents with explicit ids From.. and vectors derived from Seed
+	Count int    `json:"count,omitempty"`
+	From  uint32 `json:"from,omitempty"`
+	Seed  uint64 `json:"seed,omitempty"`
 	Ref int         `json:"ref,omitempty"`
 	K   int         `json:"k,omitempty"`
 	Q   []float32   `json:"q,omitempty"`
@@ -45,6 +50,10 @@ type vfStoreConf struct {
 	FlushThr int64       `json:"flush_threshold"`
 	CompThr  int         `json:"compaction_threshold"`
 	Train    [][]float32 `json:"train,omitempty"`
+	// a second training sample: "freshly constructed templates" of a later session need not have
+	// been trained on the data the earlier session's template saw
+	TrainAlt [][]float32 `json:"train_alt,omitempty"`
+	UseAlt   bool        `json:"-"`
 }
 
 type vfC09Case struct {
@@ -94,18 +103,36 @@ func vfC09Gen(rt *rapid.T) vfC09Case {
 	var g *vfVecGen
 	c.Conf, g = vfGenStoreConf(rt)
 	c.Conf.FlushThr = 1 << 40 // no background flushes here (C08 / C11 cover them)
+	if c.Conf.VecKind == "ivf" && rapid.Bool().Draw(rt, "second_training_sample") {
+		c.Conf.TrainAlt = vfGenTrainingSet(rt, g, 6, 12, DistanceKind(c.Conf.Metric) == Cosine)
+	}
 	nSessions := rapid.IntRange(1, 4).Draw(rt, "sessions")
 	n := 0
 	explicit := map[uint32]bool{}
+	// one case in eight holds segments far larger than a gzip block: wide vectors, big memtables and
+	// bulk operations that add hundreds of documents before one flush
+	bulk := c.Conf.VecKind != "ivf" && rapid.IntRange(0, 7).Draw(rt, "bulk_case") == 0
+	if bulk {
+		c.Conf.Dim = rapid.SampledFrom([]int{16, 32, 64}).Draw(rt, "bulk_dim")
+		c.Conf.MemLimit = rapid.SampledFrom([]int64{1 << 30, 1 << 30, 200000}).Draw(rt, "bulk_memtable_limit")
+		g = vfNewVecGen(rt, c.Conf.Dim)
+	}
+	bulkFrom := uint32(1 << 29)
 	for s := 0; s < nSessions; s++ {
 		opGen := rapid.Custom(func(rt *rapid.T) vfStoreOp {
 			if rapid.IntRange(0, 4).Draw(rt, "flush") == 0 {
 				return vfStoreOp{Op: "flush"}
 			}
+			if bulk && rapid.IntRange(0, 3).Draw(rt, "bulk_op") == 0 {
+				op := vfStoreOp{Op: "bulk", Count: rapid.IntRange(100, 900).Draw(rt, "bulk_count"), From: bulkFrom, Seed: rapid.Uint64().Draw(rt, "bulk_seed")}
+				bulkFrom += uint32(op.Count)
+				n += op.Count
+				return op
+			}
 			n++
 			return vfStoreOp{Op: "add", Doc: vfGenStoreDoc(rt, g, n, explicit)}
 		})
-		c.Sessions = append(c.Sessions, rapid.SliceOfN(opGen, 0, 12).Draw(rt, "session_ops"))
+		c.Sessions = append(c.Sessions, vfListOf(rt, "session_ops", opGen, 0, 24))
 	}
 	c.SeparateProcess = vfTierThorough() && rapid.IntRange(0, 9).Draw(rt, "separate_process") == 0
 	return c
@@ -124,7 +151,11 @@ func vfFreshTemplates(c *vfStoreConf) (VectorIndex, TextIndex, MetadataIndex, er
 	case "hnsw":
 		vi, err = NewHNSWIndex(c.Dim, kind, 32, 200, 200)
 	case "ivf":
-		vi, err = vfNewVectorIndexOfKind("ivf", c.Dim, kind, c.Train)
+		train := c.Train
+		if c.UseAlt && len(c.TrainAlt) > 0 {
+			train = c.TrainAlt
+		}
+		vi, err = vfNewVectorIndexOfKind("ivf", c.Dim, kind, train)
 	}
 	if err != nil {
 		return nil, nil, nil, err
@@ -157,7 +188,16 @@ func vfOpenStore(dir string, c *vfStoreConf) (*PersistentHybridIndex, error) {
 
 func (d *vfStoreDoc) text() string { return fmt.Sprintf("tok%d %s common", d.N, d.Word) }
 func (d *vfStoreDoc) meta() map[string]interface{} {
-	return map[string]interface{}{"n": d.N, "tag": fmt.Sprintf("t%d", d.N%3)}
+	m := map[string]interface{}{"n": d.N, "tag": fmt.Sprintf("t%d", d.N%3)}
+	// fields that only some documents carry: removing their last carrier drains a field's index
+	// while the memtable still holds other documents
+	if d.N%3 == 1 {
+		m["p"] = d.N * 10
+	}
+	if d.N%4 == 2 {
+		m["q"] = d.Word
+	}
+	return m
 }
 
 func vfStoreAdd(st *PersistentHybridIndex, c *vfStoreConf, d *vfStoreDoc) (uint32, error) {
@@ -245,7 +285,27 @@ func vfCheckDurable(st HybridSearchIndex, c *vfStoreConf, durable map[uint32]*vf
 		ids = append(ids, id)
 	}
 	sort.Slice(ids, func(i, j int) bool { return ids[i] < ids[j] })
-	for _, id := range ids {
+	step := 1
+	// HNSW promises exact answers only while it is small (C12); with many documents its vector
+	// lookups are left to the before / after comparison with default parameters
+	vecExact := c.VecKind != "hnsw" || len(ids) <= 64
+	if !vecExact {
+		cc := *c
+		cc.VecKind = "none"
+		c = &cc
+	}
+	if len(ids) > 48 {
+		// many documents (bulk sessions): one census query per modality must return every durable
+		// document, and every 1/48th document is looked up individually as well
+		step = (len(ids) + 47) / 48
+		if v := vfStoreCensus(st, c, durable, everAdded, when); v != nil {
+			return v
+		}
+	}
+	for i, id := range ids {
+		if i%step != 0 {
+			continue
+		}
 		d := durable[id]
 		bv, bt, bm, all, err := vfStoreFind(st, c, id, d)
 		if err != nil {
@@ -263,7 +323,102 @@ func vfCheckDurable(st HybridSearchIndex, c *vfStoreConf, durable map[uint32]*vf
 	return nil
 }
 
+// vfStoreCensus: one query per modality that every document matches.
+func vfStoreCensus(st HybridSearchIndex, c *vfStoreConf, durable map[uint32]*vfStoreDoc, everAdded map[uint32]bool, when string) *vfViolation {
+	check := func(what string, res []HybridSearchResult, err error) *vfViolation {
+		if err != nil {
+			return vfFail("%s: %s census query: %v", when, what, err)
+		}
+		got := map[uint32]bool{}
+		for _, r := range res {
+			got[r.ID] = true
+			if !everAdded[r.ID] {
+				return vfFail("%s: the %s census returned id %d, which was never added", when, what, r.ID)
+			}
+		}
+		missing, first := 0, uint32(0)
+		for id := range durable {
+			if !got[id] {
+				if missing == 0 || id < first {
+					first = id
+				}
+				missing++
+			}
+		}
+		if missing > 0 {
+			return vfFail("%s: %d of %d documents acknowledged by a Flush/Close that returned nil are not returned by a %s query that matches every document (first missing id %d; vector index %s)", when, missing, len(durable), what, first, c.VecKind)
+		}
+		return nil
+	}
+	if c.VecKind != "none" {
+		q := make([]float32, c.Dim)
+		q[0] = 1
+		res, err := st.NewSearch().WithVector(q).WithK(vfBigK).WithNProbes(1000).Execute()
+		if v := check("vector", res, err); v != nil {
+			return v
+		}
+	}
+	if c.HasText {
+		res, err := st.NewSearch().WithText("common").WithK(vfBigK).Execute()
+		if v := check("text", res, err); v != nil {
+			return v
+		}
+	}
+	if c.HasMeta {
+		res, err := st.NewSearch().WithMetadata(Exists("n")).WithK(vfBigK).Execute()
+		if v := check("metadata", res, err); v != nil {
+			return v
+		}
+	}
+	return nil
+}
+
+// vfBulkDoc is document i of a bulk operation: a pure function of the operation.
+func vfBulkDoc(op *vfStoreOp, i, dim int) *vfStoreDoc {
+	r := rand.New(rand.NewPCG(op.Seed, uint64(i)))
+	v := make([]float32, dim)
+	for j := range v {
+		v[j] = float32(r.NormFloat64())
+	}
+	id := op.From + uint32(i)
+	return &vfStoreDoc{ID: id, Vec: v, Word: "fox", N: int(id-1<<29) + 100000}
+}
+
+// vfDefaultFind: which of the documents does a vector query with the document's own vector and the
+// store's DEFAULT search parameters (no nprobes / efSearch override) return? Used as a baseline:
+// whatever such a query found before Close it must find after the restart.
+func vfDefaultFind(st HybridSearchIndex, c *vfStoreConf, docs map[uint32]*vfStoreDoc) (map[uint32]bool, error) {
+	out := map[uint32]bool{}
+	if c.VecKind == "none" {
+		return out, nil
+	}
+	ids := make([]uint32, 0, len(docs))
+	for id := range docs {
+		ids = append(ids, id)
+	}
+	sort.Slice(ids, func(i, j int) bool { return ids[i] < ids[j] })
+	step := (len(ids) + 47) / 48
+	for i, id := range ids {
+		if step > 1 && i%step != 0 {
+			continue
+		}
+		res, err := st.NewSearch().WithVector(vfCloneF32(docs[id].Vec)).WithK(vfBigK).Execute()
+		if err != nil {
+			return nil, err
+		}
+		for _, r := range res {
+			if r.ID == id {
+				out[id] = true
+			}
+		}
+	}
+	return out, nil
+}
+
 func vfC09Run(c vfC09Case, ctx *vfCtx) *vfViolation {
+	for _, sess := range c.Sessions {
+		ctx.HistoryLen("session", len(sess))
+	}
 	dir, err := os.MkdirTemp(vfEnv("VERIF_SCRATCH"), "c09-")
 	if err != nil {
 		return vfFail("mkdir: %v", err)
@@ -274,12 +429,48 @@ func vfC09Run(c vfC09Case, ctx *vfCtx) *vfViolation {
 	everAdded := map[uint32]bool{}
 	var prevHashes map[string]string
 	onlyByClose := false
+	foundByDefault := map[uint32]bool{}
+	checkDefault := func(st HybridSearchIndex, conf *vfStoreConf, when string) *vfViolation {
+		base := map[uint32]*vfStoreDoc{}
+		for id := range foundByDefault {
+			if d := durable[id]; d != nil {
+				base[id] = d
+			}
+		}
+		now, err := vfDefaultFind(st, conf, base)
+		if err != nil {
+			return vfFail("%s: vector query with default parameters: %v", when, err)
+		}
+		ids := make([]uint32, 0, len(base))
+		for id := range base {
+			ids = append(ids, id)
+		}
+		sort.Slice(ids, func(i, j int) bool { return ids[i] < ids[j] })
+		step := (len(ids) + 47) / 48
+		for i, id := range ids {
+			if step > 1 && i%step != 0 {
+				continue
+			}
+			if !now[id] {
+				return vfFail("%s: before the previous Close a vector query with document %d's own vector and the default search parameters returned it; after the restart the same query does not (vector index %s, freshly trained template: %v)", when, id, conf.VecKind, conf.UseAlt)
+			}
+		}
+		ctx.Count("default_parameter_lookups_compared", int64(len(ids)))
+		return nil
+	}
 	for si, ops := range c.Sessions {
-		st, err := vfOpenStore(dir, &c.Conf)
+		conf := c.Conf
+		conf.UseAlt = si%2 == 1
+		ctx.ClassIf(conf.UseAlt && len(conf.TrainAlt) > 0, "session_with_differently_trained_template")
+		st, err := vfOpenStore(dir, &conf)
 		if err != nil {
 			return vfFail("session %d: Open failed: %v", si, err)
 		}
 		if v := vfCheckDurable(st, &c.Conf, durable, everAdded, fmt.Sprintf("session %d after reopen with fresh templates", si)); v != nil {
+			st.Close()
+			return v
+		}
+		if v := checkDefault(st, &conf, fmt.Sprintf("session %d after reopen with fresh templates", si)); v != nil {
 			st.Close()
 			return v
 		}
@@ -304,6 +495,24 @@ func vfC09Run(c vfC09Case, ctx *vfCtx) *vfViolation {
 				}
 				everAdded[id] = true
 				pending[id] = op.Doc
+			case "bulk":
+				if op.Count <= 0 || op.Count > 5000 || op.From < 1<<29 || op.From >= 1<<30 {
+					continue
+				}
+				for i := 0; i < op.Count; i++ {
+					d := vfBulkDoc(&op, i, c.Conf.Dim)
+					if everAdded[d.ID] {
+						continue
+					}
+					if _, err := vfStoreAdd(st, &c.Conf, d); err != nil {
+						st.Close()
+						return vfFail("session %d op %d: bulk add of document %d failed: %v", si, oi, d.ID, err)
+					}
+					everAdded[d.ID] = true
+					pending[d.ID] = d
+				}
+				ctx.Class("bulk_operation")
+				ctx.Stat("bulk_vector_bytes", float64(op.Count*c.Conf.Dim*4))
 			case "flush":
 				if err := st.Flush(); err != nil {
 					continue // not acknowledged
@@ -316,6 +525,20 @@ func vfC09Run(c vfC09Case, ctx *vfCtx) *vfViolation {
 		}
 		if len(pending) > 0 {
 			onlyByClose = true
+		}
+		// baseline for the next session: what a default-parameter lookup finds right now
+		known := map[uint32]*vfStoreDoc{}
+		for id, d := range durable {
+			known[id] = d
+		}
+		for id, d := range pending {
+			known[id] = d
+		}
+		if fb, err := vfDefaultFind(st, &conf, known); err == nil {
+			foundByDefault = fb
+		} else {
+			st.Close()
+			return vfFail("session %d: vector query with default parameters before Close: %v", si, err)
 		}
 		if err := st.Close(); err == nil {
 			for id, d := range pending {
@@ -343,11 +566,16 @@ func vfC09Run(c vfC09Case, ctx *vfCtx) *vfViolation {
 		}
 		ctx.Class("final_reopen_in_separate_process")
 	} else {
-		st, err := vfOpenStore(dir, &c.Conf)
+		conf := c.Conf
+		conf.UseAlt = len(c.Sessions)%2 == 1
+		st, err := vfOpenStore(dir, &conf)
 		if err != nil {
 			return vfFail("final reopen failed: %v", err)
 		}
 		v := vfCheckDurable(st, &c.Conf, durable, everAdded, "final reopen with fresh templates")
+		if v == nil {
+			v = checkDefault(st, &conf, "final reopen with fresh templates")
+		}
 		st.Close()
 		if v != nil {
 			return v
